@@ -96,7 +96,10 @@ Specified(w, op) ==
     [] op.k = "assign" -> op.v.t # "n" /\ Resolve(w, op.e) \in {"state", "py"}
     [] op.k = "extset" -> op.v.t # "n"
     [] op.k = "del" -> Resolve(w, op.e) \in {"state", "py"}
-    [] op.k = "capture" -> Resolve(w, op.e) = "state"
+    [] op.k = "capture" -> op.via = "get" \/ Resolve(w, op.e) = "state"
+    [] op.k = "usesnap" -> w.snap # NoSnap /\ (op.how = "assign" => Resolve(w, op.e) = "state")
+    [] op.k = "snapfield" -> w.snap # NoSnap
+    [] op.k = "touch" -> Has(w.h, op.e) /\ (op.how = "assign" => Resolve(w, op.e) = "state")
     [] op.k = "readattr" -> op.via = "get" \/ Resolve(w, op.e) = "state"
     [] op.k = "assignattr" -> Resolve(w, op.e) = "state" /\ op.n \notin Virtual /\ Has(w.h, op.e)
     [] op.k = "setattr" -> op.n \notin Virtual /\ Has(w.h, op.e)
@@ -138,6 +141,24 @@ Apply(w, op, now) ==
     [] op.k = "capture" ->
          IF Has(w.h, op.e) THEN Res([w EXCEPT !.snap = Snap(w.h[op.e], op.e)], NoneR) ELSE Exc(w, "NameError")
     [] op.k = "checksnap" -> Res(w, w.snap)
+    \* a field of the captured snapshot, read later: exactly what was captured
+    [] op.k = "snapfield" ->
+         IF op.n = "entity_id" THEN Res(w, [k |-> "id", e |-> w.snap.id])
+         ELSE IF op.n = "last_changed" THEN Res(w, [k |-> "stamp", n |-> w.snap.lc])
+         ELSE IF op.n = "last_updated" THEN Res(w, [k |-> "stamp", n |-> w.snap.lu])
+         ELSE IF op.n = "last_reported" THEN Res(w, [k |-> "stamp", n |-> w.snap.lr])
+         ELSE IF \E p \in w.snap.a : p[1] = op.n THEN Res(w, [k |-> "val", v |-> (CHOOSE p \in w.snap.a : p[1] = op.n)[2]])
+         ELSE Exc(w, "AttributeError")
+    \* the captured snapshot used as the VALUE of a write (DOMAIN.e = SNAP, state.set(name, SNAP, ...)):
+    \* the value is the snapshot's string; the statement does not say whether the target keeps its
+    \* attributes ("keep") or receives the snapshot's ("copy") - see Outcomes; new_attributes replaces
+    \* all, keywords merge; the snapshot itself is untouched
+    [] op.k = "usesnap" ->
+         LET s == w.h[op.e]
+             base == IF op.how = "setnew" THEN Pairs(op.new) ELSE IF op.mode = "keep" THEN s.a ELSE w.snap.a
+         IN Res(SetH(w, op.e, HASet(s, w.snap.v, Merge(base, op.kw, 1), now)), NoneR)
+    \* what is there is written again, later (script or external): HA only moves last_reported
+    [] op.k = "touch" -> Res(SetH(w, op.e, HASet(w.h[op.e], w.h[op.e].v, w.h[op.e].a, now)), NoneR)
     [] op.k = "bindvar" -> Res([w EXCEPT !.py[op.d] = [b |-> TRUE, at |-> Pairs(op.at)]], NoneR)
     [] op.k = "unbindvar" -> Res([w EXCEPT !.py[op.d] = Unbound], NoneR)
     [] op.k = "regsvc" -> Res([w EXCEPT !.svc = @ \cup {op.e}], NoneR)
@@ -145,4 +166,10 @@ Apply(w, op, now) ==
     \* a function whose local variable shadows the domain: the local object wins, HA untouched
     [] op.k \in {"localread", "localassign"} -> Res(w, [k |-> "val", v |-> op.v])
     [] op.k = "localdel" -> Res(w, [k |-> "bool", b |-> FALSE])            \* hasattr(obj, name) afterwards
+
+\* all outcomes the statement admits (a singleton except where it is silent)
+Outcomes(w, op, now) ==
+  IF op.k = "usesnap" /\ op.how # "setnew"
+  THEN { Apply(w, [op EXCEPT !.mode = m], now) : m \in {"keep", "copy"} }
+  ELSE { Apply(w, op, now) }
 =============================================================================
